@@ -5,6 +5,7 @@
 #include <PhQ/Base.hpp>
 
 #include <cerrno>
+#include <clocale>
 #include <cstring>
 #include <memory>
 #include <string_view>
@@ -139,6 +140,24 @@ int main(int argc, char** argv) {
       one<float>(t);
       one<double>(t);
       one<long double>(t);
+    }
+    // the process's C locale (whatever the application selected) is left as it was by a parse, and parsing does not trip over it
+    {
+      const char* const candidates[] = {"C.UTF-8", "C.utf8", "POSIX"};
+      for (const char* name : candidates) {
+        if (!std::setlocale(LC_ALL, name)) continue;
+        const std::string before_all(std::setlocale(LC_ALL, nullptr)), before_num(std::setlocale(LC_NUMERIC, nullptr));
+        for (const char* t : {"12.5", "1e400", "abc", "0x1p-3", ""}) {
+          one<float>(t);
+          one<double>(t);
+          one<long double>(t);
+        }
+        const std::string after_all(std::setlocale(LC_ALL, nullptr)), after_num(std::setlocale(LC_NUMERIC, nullptr));
+        vf::stat("parses_under_a_selected_locale", 15);
+        if (after_all != before_all || after_num != before_num)
+          vf::viol("parse-number|changes-the-process-locale", "{\"selected\":" + vf::jstr(before_all) + ",\"after_parsing\":" + vf::jstr(after_all) + ",\"LC_NUMERIC_after\":" + vf::jstr(after_num) + "}");
+        std::setlocale(LC_ALL, "C");
+      }
     }
     std::string big(100000, '9');
     one<float>(big);
